@@ -380,8 +380,13 @@ enum Op {
     Install { table: Vec<i64> },
     DropGuard { id: u64 },
     Forget { id: u64 },
-    Send { cls: u64, sock: usize, via: String },
+    /// `copies` byte-identical datagrams sent back to back (UDP carries no sequence number: same
+    /// socket, same payload, same peer).  Every copy has its own spec-level tag (see post_fixture).
+    Send { cls: u64, sock: usize, via: String, copies: u64 },
 }
+
+/// offset for occurrences of a wire tag beyond the number of copies that were sent
+const DUP_STRIDE: u64 = 20000;
 
 #[derive(Clone, Default)]
 struct FixPlan {
@@ -500,12 +505,16 @@ async fn client_task(plan: FixPlan, ctx: Rc<Ctx>, lo_only: bool) -> u64 {
                             ev(&ctx.log, json!({"ev":"forget","id":id,"at":at}));
                         }
                     }
-                    Op::Send { cls, sock: s, via } => {
-                        let tag = ctx.next_tag.get();
-                        ctx.next_tag.set(tag + 1);
+                    Op::Send { cls, sock: s, via, copies } => {
+                        // every copy gets its own (sequential) spec-level tag; the bytes on the wire
+                        // carry the tag of the first copy, so the copies are byte-identical
+                        let wire = ctx.next_tag.get();
+                        ctx.next_tag.set(wire + *copies);
                         let dst = if via == "lo" || lo_only { IpAddr::V4(Ipv4Addr::LOCALHOST) } else { host_ip(*s) };
-                        sock.try_send_to(&payload(*cls, tag), SocketAddr::new(dst, UPORT)).expect("try_send_to");
-                        ev(&ctx.log, json!({"ev":"send","tag":tag,"h":me,"cls":cls,"sock":s,"via":via,"at":at}));
+                        for k in 0..*copies {
+                            sock.try_send_to(&payload(*cls, wire), SocketAddr::new(dst, UPORT)).expect("try_send_to");
+                            ev(&ctx.log, json!({"ev":"send","tag":wire + k,"wire":wire,"h":me,"cls":cls,"sock":s,"via":via,"at":at}));
+                        }
                     }
                 }
             }
@@ -624,6 +633,39 @@ fn post_fixture(raw: Vec<Raw>, fin: u64) -> Vec<Value> {
         evs.push(e);
     }
     evs.push(json!({"ev":"end","now":fin,"at":fin}));
+    // 1b. byte-identical copies of a datagram carry the same wire tag (that of the first copy): the
+    // k-th time the rules see it and the k-th time it arrives belong to copy k (the copies are sent
+    // back to back under one chain, so they share verdict, egress tick and deadline and any matching
+    // is equivalent)
+    let mut copies_of: HashMap<u64, Vec<u64>> = HashMap::new();
+    for e in evs.iter() {
+        if e["ev"] == "send" {
+            if let (Some(w), Some(t)) = (e["wire"].as_u64(), e["tag"].as_u64()) {
+                copies_of.entry(w).or_default().push(t);
+            }
+        }
+    }
+    let mut seen_eval: HashMap<u64, usize> = HashMap::new();
+    let mut seen_arr: HashMap<u64, usize> = HashMap::new();
+    for e in evs.iter_mut() {
+        let kind = e["ev"].as_str().unwrap_or("").to_string();
+        let wire = e["tag"].as_u64().unwrap_or(0);
+        let Some(list) = copies_of.get(&wire) else { continue };
+        if list.len() < 2 {
+            continue;
+        }
+        let ctr = match kind.as_str() {
+            "eval" => &mut seen_eval,
+            "arrive" => &mut seen_arr,
+            _ => continue,
+        };
+        let k = ctr.entry(wire).or_insert(0);
+        // more occurrences than copies: an id nobody sent (the specs will say so)
+        let tag = list.get(*k).copied().unwrap_or(wire + DUP_STRIDE * (*k as u64));
+        e["tag"] = json!(tag);
+        e["dup"] = json!(*k > 0);
+        *k += 1;
+    }
     // 2. place ticks
     let mut out = Vec::new();
     let mut ticks = 0u64; // scheduler ticks placed so far
@@ -817,6 +859,7 @@ fn plan_of(beh: &[Value], nh: usize, nc: usize, tcpcls: u64) -> FixPlan {
                 cls: a["cls"].as_u64().unwrap(),
                 sock: a["sock"].as_u64().unwrap() as usize,
                 via: a["via"].as_str().unwrap().to_string(),
+                copies: 1,
             }),
             "tick" => iters.push(std::mem::take(&mut cur)),
             _ => {}
@@ -1017,7 +1060,9 @@ fn random_plan(rng: &mut SmallRng, lo: bool) -> FixPlan {
                             _ => (rng.random_range(1..nh), "ip"),
                         }
                     };
-                    ops.push(Op::Send { cls: rng.random_range(1..=2), sock, via: via.to_string() });
+                    // one send in four is a pair of byte-identical datagrams
+                    let copies = if rng.random_bool(0.25) { 2 } else { 1 };
+                    ops.push(Op::Send { cls: rng.random_range(1..=2), sock, via: via.to_string(), copies });
                 }
             }
         }
